@@ -178,14 +178,21 @@ def code_to_spec(report, module, cfg, traces, *, consts=None, timeout=3000, heap
     report.add("recorded_traces_validated", ndone)
     report.add("trace_steps_validated", nsteps)
     report.add("distinct_trace_states", nstates)
+    percl = {}
     for tid, stepno, clause in allfails:
         owner = clause.split(".")[0]
+        percl[clause] = percl.get(clause, 0) + 1
+        if percl[clause] > 3:
+            report.add("violations_beyond_cap" if owner in (owners or {report.prop}) else "notes_beyond_cap")
+            continue
         tr = traces[tid - 1]
         if isinstance(tr, dict):
             tr = tr["ev"]
         detail = {"trace": tid, "step": stepno, "clause": clause,
                   "event": (describe or (lambda e: e))(tr[stepno - 1]) if 0 < stepno <= len(tr) else None}
-        obj = {"kind": "trace", "module": module, "cfg": cfg, "trace": traces[tid - 1], "upto": stepno}
+        whole = traces[tid - 1]
+        cut = dict(whole, ev=whole["ev"][:stepno]) if isinstance(whole, dict) else whole[:stepno]
+        obj = {"kind": "trace", "module": module, "cfg": cfg, "trace": cut, "upto": stepno}
         own = owners or {report.prop}
         if owner in own:
             report.violation(clause, detail, obj)
